@@ -10,6 +10,7 @@ import (
 	_ "verif/harness/prop/c04"
 	_ "verif/harness/prop/c05"
 	_ "verif/harness/prop/c16"
+	_ "verif/harness/prop/c19"
 )
 
 func usage() {
